@@ -32,6 +32,10 @@ for ty in "SMB_FIND_FILE_BOTH_DIRECTORY_INFO SMB_FIND_FILE_DIRECTORY_INFO SMB_FI
     add(IL,"informationlevels",ty,f"var v {ty}\n\tv.Unmarshal(data)",["0..10","24","40"],["0..100"],lossy_fmt=True)
 add(M,"message","Message","if len(data) > 4 {\n\t\tvAssume(int(data[4]) == vParam(\"cmd\"))\n\t}\n\tm := NewMessage()\n\tm.Unmarshal(data)",["0","31..38"],["0","31..44"],lossy_fmt=True,grid_extra={"cmd":["0","4","37","47","114","115","117","255"]})
 
+SP="network/smb/smb_v10/spnego"
+add(SP,"spnego","ExtractNTLMToken","ExtractNTLMToken(data)",["0..8"],["0..16"],lossy_fmt=True)
+add(SP,"spnego","ParseNegTokenResp","ParseNegTokenResp(data)",["0..8"],["0..16"],lossy_fmt=True)
+
 # text-input entries use vString
 def addS(pkg, pkgname, name, body, q, t, **extra):
     E.append(dict(pkg=pkg, pkgname=pkgname, name=name, body=body, q=q, t=t, imports=(), extra=extra, text=True))
